@@ -3602,11 +3602,15 @@ fn run_key_misc(ctx: &Arc<Ctx>, g: &Glob) {
         let text = String::from_utf8(alg.label().to_vec()).unwrap();
         let parsed = Algorithm::from_str(&text).ok();
         let shown = alg.lib().to_string();
-        if parsed != Some(alg.lib()) || shown != text || alg.lib().native_len() != alg.native() {
+        // the text form is a domain name: letter case and a trailing dot do not change which name it is
+        let same_name = shown.trim_end_matches('.').eq_ignore_ascii_case(&text);
+        if parsed != Some(alg.lib()) || !same_name || alg.lib().native_len() != alg.native() {
             violate(ctx, "C11|algorithm|text-round-trip", &format!("{text}: parsed {parsed:?}, displayed {shown}, native_len {}", alg.lib().native_len()), &|| json!({"kind": "algorithm_text", "alg": alg.idx()}));
         }
     }
-    for bad in ["hmac-md5", "hmac-sha224", "", "sha256", "hmac-sha256."] {
+    // only texts that name no TSIG algorithm at all: the absolute spelling "hmac-sha256." is the same
+    // domain name, and hmac-md5 / hmac-sha224 are registered algorithms a library may come to support
+    for bad in ["", "sha256", "hmac-sha257", "hmac-sha256x", "hmac-sha256.example"] {
         l.evals += 1;
         if Algorithm::from_str(bad).is_ok() {
             violate(ctx, "C11|algorithm|from_str-accepts-unknown-name", bad, &|| json!({"kind": "algorithm_text", "text": bad}));
